@@ -3760,6 +3760,9 @@ def sptendiag(elements: OneDArray, shape: Optional[Shape] = None) -> sptensor:
     else:
         shape = parse_shape(shape)
         constructed_shape = tuple(max(N, dim) for dim in shape)
+    if N > 0 and len(constructed_shape) == 0:
+        # an order-0 tensor has no super diagonal: do not drop the elements silently
+        raise ValueError("Cannot place elements on the diagonal of an empty shape")
     subs = np.tile(np.arange(0, N).transpose(), (len(constructed_shape), 1)).transpose()
     return sptensor.from_aggregator(subs, elements.reshape((N, 1)), constructed_shape)
 
